@@ -245,7 +245,7 @@ def Ref.days (r : Ref) (y m d : Int) : Int := r.fixed y m d - unixEpochRD
 def Ref.yearStart (r : Ref) (y : Int) : Int := r.days y r.firstMonth 1
 def Ref.yearLength (r : Ref) (y : Int) : Int := r.yearStart (y + 1) - r.yearStart y
 
-/-- ops: `ref.year k y → start len months leap`, `ref.month k y m → daysBefore len`, `ref.days k y m d → day`,
+/-- ops: `ref.year k y → start len months leap monthLength(1..n) daysBeforeMonth(1..n)`, `ref.month k y m → daysBefore len`, `ref.days k y m d → day`,
     `ref.pyord y m d → ordinal`, `ref.pyymd n → y m d isoweekday` -/
 def handle (toks : List String) : Option String :=
   match toks with
@@ -254,7 +254,9 @@ def handle (toks : List String) : Option String :=
       let r ← refOf k
       let y ← parseInt? y
       if y < r.fromYear then some "!dom" else
-      some (showInts [r.yearStart y, r.yearLength y, r.months y] ++ " " ++ showBool (r.leap y))
+      let ms := (List.range (r.months y).toNat).map (fun (i : Nat) => (i : Int) + 1)
+      some (showInts [r.yearStart y, r.yearLength y, r.months y] ++ " " ++ showBool (r.leap y) ++ " "
+            ++ showInts (ms.map (r.monthLength y)) ++ " " ++ showInts (ms.map (fun m => r.days y m 1 - r.yearStart y)))
   | ["ref.month", k, y, m] => do
       let k ← k.toNat?
       let r ← refOf k
@@ -274,6 +276,8 @@ def handle (toks : List String) : Option String :=
       let y ← parseInt? y
       let m ← parseInt? m
       let d ← parseInt? d
+      -- `_check_date_fields`
+      if y < 1 ∨ y > 9999 ∨ m < 1 ∨ m > 12 ∨ d < 1 ∨ d > pyDaysInMonth y m then some "!valueError" else
       some (toString (pyYmd2ord y m d))
   | ["ref.pyymd", n] => do
       let n ← parseInt? n
